@@ -157,6 +157,8 @@ func (m *module) load(proj *Project) (starlark.StringDict, error) {
 
 	t, builtins, err := m.env(proj)
 	if err != nil {
+		// Publish the failure: other modules may already be waiting on this one.
+		m.done(nil, err)
 		proj.events.ModuleLoadFailed(m.label, err)
 		return nil, err
 	}
